@@ -12,8 +12,8 @@ open Model.Pool
 
 /-- the translated `Release` IS the release step of the model (with the repaired `c.res = nil`) -/
 theorem tie_C11_release (cfg : Cfg) (s : St) (h : Nat) (hc : cfg.clearOnRelease = true) :
-    Generated.Trans.release cfg s h = step cfg s (.release h) := by
-  unfold Generated.Trans.release step
+    Generated.Trans.Pool.release cfg s h = step cfg s (.release h) := by
+  unfold Generated.Trans.Pool.release step
   simp only [hc, if_true]
   cases hl : lookup s.handles h with
   | none => rfl
@@ -31,13 +31,13 @@ theorem tie_C11_release (cfg : Cfg) (s : St) (h : Nat) (hc : cfg.clearOnRelease 
 
 /-- one idle resource in the health check: destroyed iff dead (`isDead`), else released unused -/
 theorem tie_C11_healthOne (cfg : Cfg) (s : St) (res : Res) :
-    Generated.Trans.healthOne cfg s.now s res =
+    Generated.Trans.Pool.healthOne cfg s.now s res =
       if isDead cfg s.now res then puddleDestroy s res.id else puddleReleaseUnused s res.id := by
-  unfold Generated.Trans.healthOne isDead expired
+  unfold Generated.Trans.Pool.healthOne isDead expired
   by_cases h1 : s.now - res.born > cfg.maxLife <;> by_cases h2 : s.now - res.lastUsed > cfg.maxIdle <;> simp [h1, h2]
 
 /-- the whole health check: all idle resources are acquired, then each is treated by `healthOne` at the time of the call -/
 theorem tie_C11_health_shape (cfg : Cfg) (s : St) :
-    Generated.Trans.checkIdleConnsHealth cfg s =
-      (puddleAcquireAllIdle s).2.foldl (Generated.Trans.healthOne cfg (puddleAcquireAllIdle s).1.now) (puddleAcquireAllIdle s).1 := rfl
+    Generated.Trans.Pool.checkIdleConnsHealth cfg s =
+      (puddleAcquireAllIdle s).2.foldl (Generated.Trans.Pool.healthOne cfg (puddleAcquireAllIdle s).1.now) (puddleAcquireAllIdle s).1 := rfl
 
